@@ -1,4 +1,5 @@
 import Tickit.Proof.EvLoopPoll
+import Tickit.Proof.EvLoopMulti
 import Tickit.Gen.EvLoop
 /-
   C18 — A delivered signal or ready descriptor always reaches its watchers.   (claimed: partial)
@@ -23,8 +24,13 @@ import Tickit.Gen.EvLoop
     `signal_reaches_watchers_end_to_end` one repaired iteration, from the wait to the callback log (uses
                                           `signal_bookkeeping_invariant`, `dispatch_reaches_watchers`).
     `io_exact_conditions`                one repaired iteration, from the wait to the io callbacks.
+    Several toplevel instances in one process (Model/EvLoopMulti.lean; `signal_observer` of evloop-default.c):
+    `observer_invariant`, `observer_moves_only_on_build_and_destroy`, `destroying_another_instance_keeps_observer`,
+    `destroying_the_observer_clears_it`, `instance_built_observes_iff_nobody_does`, `observer_instance_records_signals`
+    (the end-to-end theorem applies to every iteration of the observer instance, whatever was done to the others).
   Defects of the shipped tree: the `*_counterexample` theorems (corpus/C18).  No statement of the property
-  is left open; `OsPpoll` is assumed.
+  is left open; `OsPpoll` is assumed.  The default loop serves ONE toplevel instance with signals (its own
+  TODO): `second_instance_*_counterexample` (known findings).
 -/
 namespace Tickit.Props.C18
 open Tickit Tickit.EvLoop
@@ -60,10 +66,10 @@ theorem raise_while_blocked_stays_pending (st : St) (s : Int) (hok : st.isOk = t
 /-- An interrupted wait: `errno` is EINTR, nothing stays pending in the kernel, and every signal that was
     pending — raised before the iteration, from a callback of an earlier one, or inside the wait — has
     been recorded by the loop's handler. -/
-theorem wait_interrupted_records_signals (st : St) (t : Option Int) (h : (ppoll st t).2 = none) :
+theorem wait_interrupted_records_signals (st : St) (t : Option Int) (ho : st.observer = .self) (h : (ppoll st t).2 = none) :
     (ppoll st t).1.errno = EINTR ∧ (ppoll st t).1.kpending = [] ∧
     ∀ s ∈ (pollRaise (pollScan st)).kpending, s ∈ (ppoll st t).1.pendingSig :=
-  ppoll_eintr st t h
+  ppoll_eintr st t ho h
 
 example : (ppoll (runOps .shipped [.act (.signal 0 23 0), .act (.raise 23)]) (some 0)).2 = none := by decide +kernel
 
@@ -187,7 +193,7 @@ theorem dispatch_reaches_watchers (fuel : Nat) (st : St) (k : KInv st) (hok : (d
     callbacks have run and is not cancelled before the iteration ends: its FIRE entry is in the log of this
     iteration, whatever timers, deferred callbacks and the other signal callbacks did (errno included). -/
 theorem signal_reaches_watchers_end_to_end (fuel : Nat) (st : St) (nohang : Bool) (k : KInv st) (hs : st.cfg.errnoSaved = true)
-    (hok0 : st.isOk = true) (hok1 : (nextTimerMsec st).1.isOk = true)
+    (ho : st.observer = .self) (hok0 : st.isOk = true) (hok1 : (nextTimerMsec st).1.isOk = true)
     (hok2 : (ppoll (nextTimerMsec st).1 (tickTimeout nohang (nextTimerMsec st).2)).1.isOk = true)
     (hint : (ppoll (nextTimerMsec st).1 (tickTimeout nohang (nextTimerMsec st).2)).2 = none)
     (hok3 : (invokeTimers fuel (ppoll (nextTimerMsec st).1 (tickTimeout nohang (nextTimerMsec st).2)).1).isOk = true)
@@ -199,10 +205,92 @@ theorem signal_reaches_watchers_end_to_end (fuel : Nat) (st : St) (nohang : Bool
         ((invokeTimers fuel (ppoll (nextTimerMsec st).1 (tickTimeout nohang (nextTimerMsec st).2)).1).getW b).slot ≥ 0 →
         Ev.cb ((invokeTimers fuel (ppoll (nextTimerMsec st).1 (tickTimeout nohang (nextTimerMsec st).2)).1).getW b).slot EV_FIRE .none
           ∈ (tick fuel st nohang).log :=
-  tick_signal_reaches_logged fuel st nohang k hs hok0 hok1 hok2 hint hok3 hok
+  tick_signal_reaches_logged fuel st nohang k hs ho hok0 hok1 hok2 hint hok3 hok
 
 example : Ev.cb 1 EV_FIRE .none ∈ (runOps .repaired [.beh ⟨0, 0, [.errno 11, .stop]⟩, .act (.signal 1 23 0), .act (.signal 2 10 0),
     .act (.timer 0 0 0), .act (.raise 23), .act (.raise 10), .tick]).log := by decide +kernel
+
+/-! ### several toplevel instances: who observes signals -/
+
+/-- In every reachable world the state operated on sees `signal_observer` as the world has it. -/
+theorem observer_invariant (cfg : Config) (ops : List WOp) : (World.run cfg ops).Consistent :=
+  World.consistent_run cfg ops
+
+/-- Nothing but building and destroying an instance moves `signal_observer`: switching instances and every
+    operation other than `destroy` — iterations and `tickit_run` with whatever their callbacks do — leave it. -/
+theorem observer_moves_only_on_build_and_destroy (cfg : Config) (ops : List WOp) (op : WOp)
+    (hop : (∃ i, op = .use i) ∨ (∃ o, op = .op o ∧ o ≠ .destroy)) :
+    ((World.run cfg ops).step op).observer = (World.run cfg ops).observer :=
+  World.observer_step_other (World.consistent_run cfg ops) op hop
+
+/-- Destroying an instance that is not the signal observer leaves the observer in place: the first instance
+    keeps receiving its signals when a second, short-lived one goes away. -/
+theorem destroying_another_instance_keeps_observer (cfg : Config) (ops : List WOp) (o : Nat)
+    (ho : (World.run cfg ops).observer = some o) (hne : o ≠ (World.run cfg ops).cur) :
+    ((World.run cfg ops).step (.op .destroy)).observer = some o :=
+  World.observer_destroy_other (World.consistent_run cfg ops) o ho hne
+
+/-- Destroying the observer itself clears the pointer (`if(signal_observer == evdata) signal_observer = NULL;`). -/
+theorem destroying_the_observer_clears_it (cfg : Config) (ops : List WOp)
+    (ho : (World.run cfg ops).observer = some (World.run cfg ops).cur) (ha : (World.run cfg ops).st.alive = true)
+    (hok : (destroy { (World.run cfg ops).st with log := [] }).isOk = true) :
+    ((World.run cfg ops).step (.op .destroy)).observer = none :=
+  World.observer_destroy_self (World.consistent_run cfg ops) ho ha hok
+
+/-- `evloop_init`: an instance built while nobody observes becomes the observer; otherwise the observer stays. -/
+theorem instance_built_observes_iff_nobody_does (w : World) (i : Nat) (hok : w.st.isOk = true) (hi : i < NINST)
+    (hna : (w.load i).st.alive = false) :
+    (w.step (.inst i)).observer = match w.observer with | none => some i | some o => some o :=
+  World.observer_build i hok hi hna
+
+/-- Whenever the instance operated on is the observer, the state is one `wait_interrupted_records_signals`
+    and `signal_reaches_watchers_end_to_end` speak about (`observer = .self`). -/
+theorem observer_instance_records_signals (cfg : Config) (ops : List WOp)
+    (ho : (World.run cfg ops).observer = some (World.run cfg ops).cur) : (World.run cfg ops).st.observer = .self := by
+  have h := World.consistent_run cfg ops
+  unfold World.Consistent at h
+  rw [h, ho]; unfold relObserver; simp only [if_true]
+
+def wact (a : Act) : WOp := .op (.act a)
+
+/-- A second instance is built and destroyed; the first one's watcher still gets its signal. -/
+example : (World.run .repaired [wact (.signal 0 10 0), .inst 1, .op .destroy, .use 0]).observer = some 0 ∧
+    Ev.cb 0 EV_FIRE .none ∈ (World.run .repaired [wact (.signal 0 10 0), .inst 1, .op .destroy, .use 0,
+      wact (.raise 10), .op .tick]).st.log := by decide +kernel
+
+/-- The observer is destroyed while another instance lives on; the next instance built takes over. -/
+example : (World.run .repaired [.inst 1, .use 0, .op .destroy]).observer = none ∧
+    (World.run .repaired [.inst 1, .use 0, .op .destroy, .inst 2]).observer = some 2 := by decide +kernel
+
+/-! ### the default loop serves one toplevel instance with signals (known findings `multi_*`) -/
+
+def wcbLog (w : World) : List Ev := w.st.log.reverse.filter fun e => match e with | .cb .. => true | _ => false
+
+def probeSecondInstance : List WOp := [.inst 1, wact (.signal 0 23 0), wact (.raise 23), .op .tick]
+
+/-- A watcher on an instance that is not the observer: the wait of its own loop is interrupted, the handler
+    records the signal in the *observer's* `pending_signals`, nothing is dispatched — now or later. -/
+theorem second_instance_watcher_counterexample :
+    wcbLog (World.run .repaired probeSecondInstance) = [] ∧
+    ((World.run .repaired probeSecondInstance).saved.getD 0 {}).pendingSig.contains 23 = true ∧
+    wcbLog (World.run .repaired (probeSecondInstance ++ [.op .tick, .op .tickhang])) = [] := by decide +kernel
+
+def probeForeignWait : List WOp := [wact (.signal 0 23 0), wact (.raise 23), .inst 1, .op .tick, .use 0, .op .tick]
+
+/-- The signal is delivered inside the wait of another instance: it is recorded for the observer, whose next
+    wait is not interrupted, so `dispatch_signals` does not run — the watcher waits for a further signal. -/
+theorem second_instance_foreign_wait_counterexample :
+    wcbLog (World.run .repaired probeForeignWait) = [] ∧
+    (World.run .repaired probeForeignWait).st.pendingSig.contains 23 = true := by decide +kernel
+
+def probeSharedMask : List WOp := [wact (.signal 0 23 0), .inst 1, wact (.signal 1 23 0), wact (.cancel 1), .use 0]
+
+/-- The signal mask and dispositions are process wide but kept per loop: the second instance drops its last
+    watcher of the signal and restores the default action although the first instance still watches it. -/
+theorem second_instance_shared_mask_counterexample :
+    (World.run .repaired probeSharedMask).st.watched.contains 23 = true ∧
+    (World.run .repaired probeSharedMask).st.blocked.contains 23 = false ∧
+    (World.run .repaired probeSharedMask).st.handled.contains 23 = false := by decide +kernel
 
 /-! ### descriptors -/
 
